@@ -27,15 +27,10 @@ from prtpy.packing import first_fit as _ff_mod, best_fit as _bf_mod, bin_complet
 from prtpy.packing import greedy_covering as _gc_mod, cflz_covering as _cflz_mod
 
 
-class Watchdog(Exception):
-    pass
+from . import hang
+from .hang import Watchdog
 
-
-def _alarm(signum, frame):
-    raise Watchdog()
-
-
-signal.signal(signal.SIGALRM, _alarm)
+hang.install()
 
 PART_ALGS = {
     "greedy": lambda: prt.greedy,
@@ -291,12 +286,12 @@ def run_part(st, watchdog=20):
     MIP_CTL["nopre"] = bool(st.get("nopre"))
     MIP_CTL["inject"] = st.get("inject") or None
     try:
-        signal.alarm(watchdog)
+        hang.arm(watchdog)
         try:
             ret = prtpy.partition(algorithm=PART_ALGS[st["alg"]](), numbins=st["k"], items=items, valueof=valueof,
                                   outputtype=out.PartitionAndSumsTuple, **part_kwargs(st))
         finally:
-            signal.alarm(0)
+            hang.arm(0)
         r.update(norm_pst(ret, vals, back))
     except Watchdog:
         r.update(empty_result("timeout"))
@@ -305,11 +300,11 @@ def run_part(st, watchdog=20):
     r["ots"] = []
     if st.get("allot"):
         def callfn(it, vo, ot):
-            signal.alarm(watchdog)
+            hang.arm(watchdog)
             try:
                 return prtpy.partition(algorithm=PART_ALGS[st["alg"]](), numbins=st["k"], items=it, valueof=vo, outputtype=ot, **part_kwargs(st))
             finally:
-                signal.alarm(0)
+                hang.arm(0)
         r["ots"] = all_outputs(callfn, vals, lambda: present(vals, fmt))
     r.pop("sw", None)
     return r
@@ -343,12 +338,12 @@ def pack_alg(name):
 
 
 def _pack_call(alg, C, den, items, valueof, ot, watchdog):
-    signal.alarm(watchdog)
+    hang.arm(watchdog)
     try:
         binsize = C if den == 1 else C / den
         return prtpy.pack(algorithm=pack_alg(alg), binsize=binsize, items=items, valueof=valueof, outputtype=ot)
     finally:
-        signal.alarm(0)
+        hang.arm(0)
 
 
 def run_pack(st, watchdog=20):
@@ -491,11 +486,11 @@ def run_refuse(st):
         for ot in ("PartitionAndSumsTuple", "Sums"):
             items, valueof, back = present(vals, fmt)
             try:
-                signal.alarm(20)
+                hang.arm(20)
                 try:
                     prtpy.partition(algorithm=prt.cbldm, numbins=k, items=items, valueof=valueof, outputtype=OUTTYPES[ot], **kw)
                 finally:
-                    signal.alarm(0)
+                    hang.arm(0)
                 o = "ret"
             except Watchdog:
                 o = "timeout"
@@ -772,7 +767,7 @@ def run_anytime(st):
         for m in mods:
             m.time = clock
         try:
-            signal.alarm(20)
+            hang.arm(20)
             try:
                 B = prtpy.BinnerKeepingContents(valueof)
                 if alg == "cg":
@@ -783,7 +778,7 @@ def run_anytime(st):
                     kw = {} if st.get("d_default") else {"partition_difference": st["d"]}
                     ret = _cbldm_mod.cbldm(B, 2, ids, time_limit=limit, **kw)
             finally:
-                signal.alarm(0)
+                hang.arm(0)
             r = _pst_ids(ret)
         except Watchdog:
             r = {"out": "timeout", "lists": [], "sums": [], "lists_end": []}
@@ -806,12 +801,12 @@ def run_anytime(st):
         B = prtpy.BinnerKeepingContents(valueof)
         ys = []
         try:
-            signal.alarm(20)
+            hang.arm(20)
             try:
                 for y in _ckk_mod.generator(B, k, ids):
                     ys.append((y, _pst_ids((np.array(y[0]), [list(b) for b in y[1]]))))
             finally:
-                signal.alarm(0)
+                hang.arm(0)
             for y, snap in ys:
                 end = _pst_ids(y)
                 snap["lists_end"] = end["lists"] if end["out"] == "ret" else [[-1]]
@@ -857,11 +852,11 @@ def run_ilp(st):
     MIP_CTL["nopre"] = bool(st.get("nopre"))
     MIP_CTL["inject"] = st.get("inject") or None
     try:
-        signal.alarm(60)
+        hang.arm(60)
         try:
             ret = prtpy.partition(algorithm=prt.ilp, numbins=k, items=items, outputtype=out.PartitionAndSumsTuple, **kw)
         finally:
-            signal.alarm(0)
+            hang.arm(0)
         t.update(norm_pst(ret, vals, back))
         if fmt == "list":
             lv = [[exact_int(x) for x in b] for b in ret[1]]
@@ -1013,11 +1008,11 @@ def run_big_group(g):
         r = {"alg": c["alg"], "out": "ret", "lists": [], "sums": [], "exact": True, "ots": []}
         sums_for_obj = None
         try:
-            signal.alarm(20)
+            hang.arm(20)
             try:
                 ret = prtpy.partition(algorithm=PART_ALGS[c["alg"]](), numbins=k, items=items, outputtype=out.PartitionAndSumsTuple, **part_kwargs(st))
             finally:
-                signal.alarm(0)
+                hang.arm(0)
             if ret is None:
                 r["out"] = "none"
             else:
